@@ -141,7 +141,8 @@ fn check_statements(ctx: &mut Ctx, section: &str, prog: &[S]) -> Vec<Violation> 
     // memory requests (huge repetition counts) are outside every property: consult the reference first
     if !prog.iter().any(|s| matches!(s, S::Raw(_))) {
         let rr = reference(prog, 300_000);
-        if memory_risk(&rr, &src_all) {
+        // (the stepping below goes on after a failed statement, the whole-program reference does not)
+        if memory_risk(&rr, &src_all) || (matches!(rr.result, Some(Err(_))) && stepwise_memory_risk(prog, 300_000)) {
             ctx.excluded(1);
             return vec![];
         }
